@@ -492,6 +492,10 @@ impl World {
                     if sh3.regime == Regime::Otel {
                         let cur = context::current();
                         log_ctx(&sh3, "hcurrent", i, &cur);
+                        // the documented idiom for nested calls, used from inside a span of the
+                        // application's own (an instrumented helper): same request, same deadline
+                        let inner = tracing::info_span!("lookup").in_scope(context::current);
+                        log_ctx(&sh3, "hcurrent", i, &inner);
                     }
                     let out = match next {
                         Some(c) => c.call(ctx, req + 1).await.map_err(|e| ServerError::new(io::ErrorKind::Other, e.to_string())),
@@ -640,7 +644,7 @@ impl World {
                     let mut st = self.st.borrow_mut();
                     let t = &mut st.tasks[i];
                     t.flag.clear();
-                    (t.fut.take(), t.stream.take(), t.waker.clone(), t.name)
+                    (t.fut.take(), t.stream.take(), t.flag.fresh_waker(), t.name)
                 };
                 let prev = self.log.begin_poll(name);
                 let mut cx = Context::from_waker(&waker);
